@@ -384,9 +384,8 @@ func main() {
 			mkdir(ed)
 			for mi := range j.hist {
 				kind := j.hist[mi].Kind
-				if j.variant == 2 && mi == 0 {
-					continue // the bulk load itself is not enumerated (covered by small batches)
-				}
+				// (the bulk load of variant 2 is enumerated like any other mutation: a batch of more
+				// than a thousand signatures must be all-or-nothing too)
 				report := func(n int, v verdict) {
 					res.Violate(v.key, v.what, map[string]any{"history": trimHist(j.hist[:mi+1]), "mutation_index": mi, "cut_at": n, "cut_op": v.cutOp, "variant": j.variant})
 				}
